@@ -17,7 +17,8 @@ RULE = ('(a) exhaustive enumeration of all strings up to length 5 (quick) / 6 (t
         'delimiter sets of <2.7 (16 symbols) and >=2.7 (17 symbols, with truncation); (b) Hypothesis text up to length 60 '
         'over the same kind of alphabet for drawn delimiter sets x every textual datatype class of every version; (c) the '
         'same values assigned through a datatype object inside a generated message (separator counts must not change) and '
-        'read back through the parser. Oracle: an independent left-to-right tokenizer must split enc(x) into ordinary '
+        'read back through the parser; (d) coverage-guided campaigns (atheris) over (textual class of any version, one of four '
+        'delimiter sets, arbitrary printable Unicode text up to 80 characters). Oracle: an independent left-to-right tokenizer must split enc(x) into ordinary '
         'characters and complete escape sequences (no active delimiter, no stray escape character); enc(enc(x)) == enc(x); '
         'parse(enc(x)).to_er7() == enc(x). Non-trivial = the input contains a delimiter or the escape character; distinct '
         'by (class family, delimiter set, string) - by construction for the enumerated part.')
@@ -261,6 +262,41 @@ def check(case, acc=None):
     return out
 
 
+FUZZ_SETS = [None, {'FIELD': '!', 'COMPONENT': '$', 'SUBCOMPONENT': '%', 'REPETITION': '*', 'ESCAPE': '@'},
+             {'FIELD': '^', 'COMPONENT': '|', 'SUBCOMPONENT': '~', 'REPETITION': '&', 'ESCAPE': '/'},
+             {'FIELD': '|', 'COMPONENT': '^', 'SUBCOMPONENT': '&', 'REPETITION': '~', 'ESCAPE': '?'},
+             {'FIELD': '[', 'COMPONENT': ']', 'SUBCOMPONENT': '-', 'REPETITION': '.', 'ESCAPE': '\\'}]
+_FUZZ_CELLS = []
+
+
+def fuzz_decode(data):
+    data = bytes(data)
+    if not _FUZZ_CELLS:
+        _FUZZ_CELLS.extend(textual_cells())
+    v, dt = _FUZZ_CELLS[(data[0] if data else 0) % len(_FUZZ_CELLS)]
+    ec = FUZZ_SETS[(data[1] if len(data) > 1 else 0) % len(FUZZ_SETS)]
+    if ec is not None and T.vkey(v) >= [2, 7] and (data[1] & 64):
+        ec = dict(ec, TRUNCATION='#')
+    return {'kind': 'string', 'v': v, 'dt': dt, 'ec': ec, 'x': data[2:].decode('utf-8', 'ignore')[:80], 'hl': None}
+
+
+def fuzz_encode(case):
+    if not _FUZZ_CELLS:
+        _FUZZ_CELLS.extend(textual_cells())
+    base = {k: v for k, v in (case.get('ec') or {}).items() if k != 'TRUNCATION'}
+    k = FUZZ_SETS.index(base) if base in FUZZ_SETS else 0
+    return bytes([_FUZZ_CELLS.index((case['v'], case['dt'])) % 256, k]) + case['x'].encode('utf-8', 'ignore')
+
+
+def fuzz_one(data):
+    case = fuzz_decode(data)
+    if any(ord(c) < 32 for c in case['x']):
+        return [], False, case, 'fuzz:outside-domain'        # control characters (segment terminators among them) are no field content
+    ec = R.full(case['ec']) if case.get('ec') else S.default_ec(case['v'])
+    nt = len(S.active_chars(ec).intersection(case['x'])) >= 2
+    return check(case), nt, case, 'fuzz:%s' % ('post27' if T.vkey(case['v']) >= [2, 7] else 'pre27')
+
+
 def replay(case, acc):
     return check(case)
 
@@ -289,6 +325,14 @@ def textual_cells():
 def run_shard(shard, acc):
     if shard['kind'] == 'enum':
         return run_enum(shard, acc)
+    if shard['kind'] == 'fuzz':
+        from hv import common
+        seeds = [fuzz_encode({'v': v, 'dt': 'ST', 'ec': None, 'x': x}) for v in ('2.5', '2.7') for x in
+                 ['|E\\', '\\F\\', 'a|b^c&d~e\\f', '\\H\\a\\N\\', '\\\\', '\\X0D0A\\', '\\.br\\', '#', '\\L\\', 'abc']]
+        toks = ['\\F\\', '\\S\\', '\\T\\', '\\R\\', '\\E\\', '\\L\\', '\\H\\', '\\N\\', '\\X41\\', '\\.sp\\', '\\', '|', '^', '~', '&', '#', '@', '@F@', '/E/', '!', '$', '%', '*']
+        common.run_fuzz(acc, 'c06', seeds if shard['k'] % 4 else [], shard['seed'], shard['runs'], 90, check, fuzz_decode,
+                        'coverage-guided', dictionary=toks, text_key='x')
+        return
     cells = [tuple(c) for c in shard['cells']]
     if shard['kind'] == 'sampled':
         hyp_collect(acc, sampled_cases(cells), _run, shard['seed'], shard['n'], shard['shrink'])
@@ -322,4 +366,6 @@ def plan(tier, seed):
             shards.append({'kind': 'sampled', 'cells': cells[k::16], 'seed': seed * 1000 + k, 'n': 6000, 'shrink': True})
         for k in range(8):
             shards.append({'kind': 'message', 'cells': cells[k::8], 'seed': seed * 1000 + 50 + k, 'n': 500, 'shrink': True})
+    for k in range(2 if tier == 'quick' else 16):
+        shards.append({'kind': 'fuzz', 'k': k + 1, 'seed': seed * 1000 + 700 + k, 'runs': 15000 if tier == 'quick' else 300000})
     return shards
